@@ -103,6 +103,11 @@ func (r *Run) discharge(fr *FuncResult) []*OblResult {
 			bt = r.Timeout
 		}
 		v := Decide(BatchQuery(proofs), r.Dir, fileTag(fr.Func)+"#batch", bt, r.Seed)
+		if v.Status != "unsat" && v.Status != "sat" && bt < r.Timeout {
+			// undecided in the short budget (a loaded machine): one more attempt with the full budget costs less than
+			// deciding every obligation on its own
+			v = Decide(BatchQuery(proofs), r.Dir, fileTag(fr.Func)+"#batch2", r.Timeout, r.Seed)
+		}
 		if v.Status == "unsat" {
 			batchOK = true
 			for _, o := range proofs {
